@@ -38,44 +38,42 @@ theorem joinPlain_congr {d d' : Iv} (s : Iv) (h : Same d d') : Same (joinPlain d
 def Full (iv : Iv) : Prop := iv.contents.length = iv.size
 
 /-- **cut, then glue**: one iteration of the split loop is undone by appending -/
-theorem cut_then_join (iv : Iv) (c : Nat) (hf : Full iv) (hc : c ≤ iv.size) :
-    Same (joinPlain (cutOne iv c).1 (cutOne iv c).2) iv := by
+theorem cut_then_join (iv : Iv) (front g : List Blk) (hb : iv.blocks = front ++ g)
+    (hge : ∀ b ∈ g, beginOf g ≤ b.off) (hf : Full iv) (hc : beginOf g ≤ iv.size) :
+    Same (joinPlain (cutOne iv g).1 (cutOne iv g).2) iv := by
   unfold Full at hf
   unfold joinPlain cutOne
   simp only []
+  generalize hcdef : beginOf g = c at *
   have hlen : (iv.contents.take c).length = c := by rw [List.length_take]; omega
   refine ⟨rfl, by simp only []; omega, by simp only [List.take_append_drop], ?_, ?_⟩
   · simp only [hlen, List.map_map]
-    have hmap : (List.map ((fun b : Blk => { b with off := b.off + c }) ∘ fun b : Blk => { b with off := b.off - c })
-        (List.filter (fun b => decide (b.off ≥ c)) iv.blocks)) = List.filter (fun b => decide (b.off ≥ c)) iv.blocks := by
-      conv => rhs; rw [← List.map_id (List.filter (fun b => decide (b.off ≥ c)) iv.blocks)]
+    have hmap : (List.map ((fun b : Blk => { b with off := b.off + c }) ∘ fun b : Blk => { b with off := b.off - c }) g) = g := by
+      conv => rhs; rw [← List.map_id g]
       apply List.map_congr_left
-      intro b hb
-      have hge : b.off ≥ c := by simpa using (List.mem_filter.mp hb).2
+      intro b hbm
+      have hge' := hge b hbm
       simp only [Function.comp, id]
       cases b with
       | mk i o sz k =>
         simp only [Blk.mk.injEq, true_and, and_true]
-        simp only [] at hge
+        simp only [] at hge'
         omega
-    rw [hmap]
-    have := List.filter_append_perm (fun b : Blk => decide (b.off < c)) iv.blocks
-    have e : (fun x : Blk => !decide (x.off < c)) = (fun b : Blk => decide (b.off ≥ c)) := by
-      funext x; by_cases hx : x.off < c <;> simp [hx] <;> omega
-    rw [e] at this
-    exact this
+    rw [hmap, hb]
+    simp only [List.length_append, Nat.add_sub_cancel, List.take_left']
+    exact List.Perm.refl _
   · simp only [hlen, List.map_map]
     have hmap : (List.map ((fun a : Ann => { a with off := a.off + c }) ∘ fun a : Ann => { a with off := a.off - c })
         (List.filter (fun a => decide (a.off ≥ c)) iv.anns)) = List.filter (fun a => decide (a.off ≥ c)) iv.anns := by
       conv => rhs; rw [← List.map_id (List.filter (fun a => decide (a.off ≥ c)) iv.anns)]
       apply List.map_congr_left
       intro a ha
-      have hge : a.off ≥ c := by simpa using (List.mem_filter.mp ha).2
+      have hge' : a.off ≥ c := by simpa using (List.mem_filter.mp ha).2
       simp only [Function.comp, id]
       cases a with
       | mk t o v =>
         simp only [Ann.mk.injEq, true_and, and_true]
-        simp only [] at hge
+        simp only [] at hge'
         omega
     rw [hmap]
     have := List.filter_append_perm (fun a : Ann => decide (a.off < c)) iv.anns
@@ -84,13 +82,17 @@ theorem cut_then_join (iv : Iv) (c : Nat) (hf : Full iv) (hc : c ≤ iv.size) :
     rw [e] at this
     exact this
 
-theorem cutOne_full (iv : Iv) (c : Nat) (hf : Full iv) : Full (cutOne iv c).1 ∧ Full (cutOne iv c).2 := by
+theorem cutOne_full (iv : Iv) (g : List Blk) (hf : Full iv) : Full (cutOne iv g).1 ∧ Full (cutOne iv g).2 := by
   unfold Full at *
   unfold cutOne
   simp only [List.length_take, List.length_drop]
   omega
 
-theorem cutOne_size (iv : Iv) (c : Nat) : (cutOne iv c).1.size = min iv.size c := rfl
+theorem cutOne_size (iv : Iv) (g : List Blk) : (cutOne iv g).1.size = min iv.size (beginOf g) := rfl
+
+theorem cutOne_blocks (iv : Iv) (front g : List Blk) (hb : iv.blocks = front ++ g) : (cutOne iv g).1.blocks = front := by
+  unfold cutOne
+  simp only [hb, List.length_append, Nat.add_sub_cancel, List.take_left']
 
 def joinAll : List Iv → Option Iv
   | [] => none
@@ -102,72 +104,145 @@ theorem foldl_joinPlain_congr (rest : List Iv) {d d' : Iv} (h : Same d d') :
   | nil => exact h
   | cons s rest ih => simp only [List.foldl_cons]; exact ih (joinPlain_congr s h)
 
-/-- the pieces of the split loop glue back to the interval it started from -/
-theorem splitAt_joinAll : ∀ (cs : List Nat) (iv : Iv) (acc : List Iv), Full iv →
-    (∀ c ∈ cs, c ≤ iv.size) → cs.Pairwise (· ≥ ·) →
-    ∃ r, joinAll (splitAt iv cs acc) = some r ∧ Same r (acc.foldl joinPlain iv) := by
-  intro cs
-  induction cs with
-  | nil => intro iv acc _ _ _; exact ⟨_, rfl, Same.refl _⟩
-  | cons c cs ih =>
-    intro iv acc hf hc hp
+/-- the pieces of the split loop glue back to the interval it started from; `gs` are the
+groups still to be cut off, last first -/
+theorem splitAt_joinAll : ∀ (gs : List (List Blk)) (iv : Iv) (front : List Blk) (acc : List Iv), Full iv →
+    iv.blocks = front ++ gs.reverse.flatten →
+    (∀ g ∈ gs, (∀ b ∈ g, beginOf g ≤ b.off) ∧ beginOf g ≤ iv.size) →
+    gs.Pairwise (fun g1 g2 => beginOf g2 ≤ beginOf g1) →
+    ∃ r, joinAll (splitAt iv gs acc) = some r ∧ Same r (acc.foldl joinPlain iv) := by
+  intro gs
+  induction gs with
+  | nil => intro iv front acc _ _ _ _; exact ⟨_, rfl, Same.refl _⟩
+  | cons g gs ih =>
+    intro iv front acc hf hb hg hp
     unfold splitAt
-    have hc0 := hc c (List.mem_cons_self)
-    obtain ⟨hf1, _⟩ := cutOne_full iv c hf
-    have hcs : ∀ c' ∈ cs, c' ≤ (cutOne iv c).1.size := by
-      intro c' hc'
+    obtain ⟨hge, hc0⟩ := hg g (List.mem_cons_self)
+    have hb' : iv.blocks = (front ++ gs.reverse.flatten) ++ g := by
+      rw [hb]; simp [List.reverse_cons, List.flatten_append]
+    obtain ⟨hf1, _⟩ := cutOne_full iv g hf
+    have hgs : ∀ g' ∈ gs, (∀ b ∈ g', beginOf g' ≤ b.off) ∧ beginOf g' ≤ (cutOne iv g).1.size := by
+      intro g' hg'
+      refine ⟨(hg g' (List.mem_cons_of_mem _ hg')).1, ?_⟩
       rw [cutOne_size]
-      have h1 := hc c' (List.mem_cons_of_mem _ hc')
-      have h2 : c ≥ c' := (List.pairwise_cons.mp hp).1 c' hc'
+      have h1 := (hg g' (List.mem_cons_of_mem _ hg')).2
+      have h2 : beginOf g' ≤ beginOf g := (List.pairwise_cons.mp hp).1 g' hg'
       omega
-    obtain ⟨r, hr, hs⟩ := ih (cutOne iv c).1 ((cutOne iv c).2 :: acc) hf1 hcs (List.pairwise_cons.mp hp).2
+    have hblocks : (cutOne iv g).1.blocks = front ++ gs.reverse.flatten := cutOne_blocks iv _ g hb'
+    obtain ⟨r, hr, hs⟩ := ih (cutOne iv g).1 front ((cutOne iv g).2 :: acc) hf1 hblocks hgs (List.pairwise_cons.mp hp).2
     refine ⟨r, hr, hs.trans ?_⟩
     simp only [List.foldl_cons]
-    exact foldl_joinPlain_congr acc (cut_then_join iv c hf hc0)
+    exact foldl_joinPlain_congr acc (cut_then_join iv _ g hb' hge hf hc0)
 
-/-! ### the cut points -/
+/-! ### the groups -/
 
-theorem groupBegins_sublist : ∀ (bs : List Blk) (st : Option (Nat × Nat)),
-    (groupBegins bs st).Sublist (bs.map (·.off)) := by
+theorem groupRuns_flatten : ∀ (bs cur : List Blk) (e : Nat), (groupRuns bs cur e).flatten = cur.reverse ++ bs := by
   intro bs
   induction bs with
-  | nil => intro st; cases st <;> simp [groupBegins]
+  | nil =>
+    intro cur e
+    unfold groupRuns
+    split
+    · rename_i h; simp [List.isEmpty_iff.mp h]
+    · simp
   | cons b bs ih =>
-    intro st
-    cases st with
-    | none => simp only [groupBegins, List.map_cons]; exact (ih _).cons₂ _
-    | some p =>
-      obtain ⟨g, e⟩ := p
-      simp only [groupBegins, List.map_cons]
-      split
-      · exact (ih _).cons₂ _
-      · exact (ih _).cons _
+    intro cur e
+    unfold groupRuns
+    split
+    · rename_i h; rw [ih]; simp [List.isEmpty_iff.mp h]
+    · split
+      · simp only [List.flatten_cons]; rw [ih]; simp
+      · rw [ih]; simp
 
-theorem cuts_sublist (iv : Iv) : (cuts iv).Sublist (iv.blocks.map (·.off)) :=
-  (List.drop_sublist _ _).trans (groupBegins_sublist _ _)
+theorem groupRuns_nonempty : ∀ (bs cur : List Blk) (e : Nat), ∀ g ∈ groupRuns bs cur e, g ≠ [] := by
+  intro bs
+  induction bs with
+  | nil =>
+    intro cur e g hg
+    unfold groupRuns at hg
+    split at hg
+    · cases hg
+    · rename_i h
+      simp only [List.mem_singleton] at hg
+      subst hg
+      intro hn
+      apply h
+      simpa using hn
+  | cons b bs ih =>
+    intro cur e g hg
+    unfold groupRuns at hg
+    split at hg
+    · exact ih _ _ g hg
+    · rename_i h
+      split at hg
+      · rcases List.mem_cons.mp hg with rfl | hg
+        · intro hn; apply h; simpa using hn
+        · exact ih _ _ g hg
+      · exact ih _ _ g hg
 
-/-- blocks listed by increasing offset and lying inside the interval -/
+/-- blocks listed in increasing offset order and lying inside the interval -/
 structure WF (iv : Iv) : Prop where
   full : Full iv
-  sorted : (iv.blocks.map (·.off)).Pairwise (· ≤ ·)
+  sorted : iv.blocks.Pairwise (fun a b => a.off ≤ b.off)
   inside : ∀ b ∈ iv.blocks, b.off ≤ iv.size
 
-theorem cuts_ok (iv : Iv) (h : WF iv) :
-    (∀ c ∈ (cuts iv).reverse, c ≤ iv.size) ∧ (cuts iv).reverse.Pairwise (· ≥ ·) := by
-  constructor
-  · intro c hc
-    have hc' : c ∈ iv.blocks.map (·.off) := (cuts_sublist iv).subset (List.mem_reverse.mp hc)
-    obtain ⟨b, hb, rfl⟩ := List.mem_map.mp hc'
-    exact h.inside b hb
-  · rw [List.pairwise_reverse]
-    have := h.sorted.sublist (cuts_sublist iv)
-    exact this.imp (fun hab => hab)
+theorem beginOf_le {g : List Blk} (hp : g.Pairwise (fun a b => a.off ≤ b.off)) : ∀ b ∈ g, beginOf g ≤ b.off := by
+  intro b hb
+  cases g with
+  | nil => cases hb
+  | cons h t =>
+    simp only [beginOf, List.head?_cons, Option.map_some, Option.getD_some]
+    rcases List.mem_cons.mp hb with rfl | hb
+    · exact Nat.le_refl _
+    · exact (List.pairwise_cons.mp hp).1 b hb
+
+theorem beginOf_mem {g : List Blk} (hne : g ≠ []) : ∃ b ∈ g, beginOf g = b.off := by
+  cases g with
+  | nil => exact absurd rfl hne
+  | cons h t => exact ⟨h, List.mem_cons_self, rfl⟩
 
 /-- **split, then glue** -/
 theorem split_joinAll (iv : Iv) (h : WF iv) : ∃ r, joinAll (split iv) = some r ∧ Same r iv := by
-  obtain ⟨h1, h2⟩ := cuts_ok iv h
-  obtain ⟨r, hr, hs⟩ := splitAt_joinAll (cuts iv).reverse iv [] h.full h1 h2
-  exact ⟨r, hr, hs⟩
+  have hflat : (groups iv).flatten = iv.blocks := by
+    unfold groups; rw [groupRuns_flatten]; simp
+  have hne := groupRuns_nonempty iv.blocks [] 0
+  have hpw : (groups iv).flatten.Pairwise (fun a b => a.off ≤ b.off) := by rw [hflat]; exact h.sorted
+  rw [List.pairwise_flatten] at hpw
+  obtain ⟨hin, hcross⟩ := hpw
+  -- split the groups into the first one and the rest
+  cases hgs : groups iv with
+  | nil =>
+    unfold split
+    rw [hgs]
+    exact ⟨iv, rfl, Same.refl _⟩
+  | cons g0 rest =>
+    unfold split
+    rw [hgs]
+    simp only [List.drop_succ_cons, List.drop_zero]
+    have hmemrest : ∀ g ∈ rest, g ∈ groups iv := by intro g hg; rw [hgs]; exact List.mem_cons_of_mem _ hg
+    have hb : iv.blocks = g0 ++ rest.reverse.reverse.flatten := by
+      rw [List.reverse_reverse, ← hflat, hgs]; rfl
+    have hcond : ∀ g ∈ rest.reverse, (∀ b ∈ g, beginOf g ≤ b.off) ∧ beginOf g ≤ iv.size := by
+      intro g hg
+      have hg' := hmemrest g (List.mem_reverse.mp hg)
+      refine ⟨beginOf_le (hin g hg'), ?_⟩
+      obtain ⟨b, hbm, hbe⟩ := beginOf_mem (hne g (by unfold groups at hg'; exact hg'))
+      rw [hbe]
+      apply h.inside
+      rw [← hflat]
+      exact List.mem_flatten.mpr ⟨g, hg', hbm⟩
+    have hord : rest.reverse.Pairwise (fun g1 g2 => beginOf g2 ≤ beginOf g1) := by
+      rw [List.pairwise_reverse]
+      rw [hgs] at hcross
+      have hc2 := (List.pairwise_cons.mp hcross).2
+      refine List.Pairwise.imp_of_mem ?_ hc2
+      intro g1 g2 hm1 hm2 hx
+      obtain ⟨b1, hb1, he1⟩ := beginOf_mem (hne g1 (by have := hmemrest g1 hm1; unfold groups at this; exact this))
+      obtain ⟨b2, hb2, he2⟩ := beginOf_mem (hne g2 (by have := hmemrest g2 hm2; unfold groups at this; exact this))
+      rw [he1, he2]
+      exact hx b1 hb1 b2 hb2
+    obtain ⟨r, hr, hs⟩ := splitAt_joinAll rest.reverse iv g0 [] h.full hb hcond hord
+    exact ⟨r, hr, hs⟩
 
 /-! ### the real `join_byte_intervals` without alignment demands, on fully initialized pieces -/
 
@@ -212,7 +287,7 @@ theorem joinFold_plain (nop : List Nat) : ∀ (rest : List Iv) (st : JoinState),
     obtain ⟨st', h3, h4⟩ := ih st1 hf1 (fun x hx => hall x (List.mem_cons_of_mem _ hx))
     exact ⟨st', h3, by rw [h4, h2]⟩
 
-theorem splitAt_full : ∀ (cs : List Nat) (iv : Iv) (acc : List Iv), Full iv → (∀ a ∈ acc, Full a) →
+theorem splitAt_full : ∀ (cs : List (List Blk)) (iv : Iv) (acc : List Iv), Full iv → (∀ a ∈ acc, Full a) →
     ∀ x ∈ splitAt iv cs acc, Full x := by
   intro cs
   induction cs with
